@@ -3,7 +3,7 @@ import math
 from collections import Counter
 from hypothesis import strategies as st
 
-from ..core import Clause, Violation, guard
+from ..core import Clause, Enum, Violation, guard
 from .. import oracles as O
 from ..harness import make_problem, dispose
 
@@ -245,11 +245,12 @@ def check_gd(case):
         g = float(gd([tuple(r) for r in ref], [tuple(c) for c in comp]))
     exp = O.gd_reference(ref, comp)
     if not (g >= 0.0) or abs(g - exp) > 1e-12 * max(1.0, abs(exp)):
-        raise Violation("gd", "gd-value", "gd(%r, %r) = %r, mean nearest distance %r" % (ref, comp, g, exp))
+        raise Violation("gd", "gd-value", "gd(%s, %s) = %r, mean nearest distance %r (%d reference points)" % (
+            repr(ref)[:300], repr(comp)[:300], g, exp, len(ref)))
     subset = all(any(list(c) == list(r) for r in ref) for c in comp)
     if (g == 0.0) != subset:
-        raise Violation("gd", "gd-zero-iff-subset", "gd=%r but computed subset of reference = %r (%r, %r)" % (
-            g, subset, ref, comp))
+        raise Violation("gd", "gd-zero-iff-subset", "gd=%r but computed subset of reference = %r (%s, %s)" % (
+            g, subset, repr(ref)[:300], repr(comp)[:300]))
     return {"nt": len(ref) >= 2 and len(comp) >= 2 and len(ref[0]) >= 2, "classes": [case["mode"], case["kind"]]}
 
 
@@ -275,8 +276,25 @@ def check_eps(case):
     return {"nt": len(ref) >= 2 and len(comp) >= 2 and len(ref[0]) >= 2, "classes": cls}
 
 
+def big_front_items(tier):
+    """dense reference fronts (beyond 1024 points, sizes that are not powers of two or multiples of a block size)"""
+    for n in ((1025, 1500, 2500) if tier == "quick" else (1025, 1500, 2047, 2500, 4097, 6000)):
+        ref = [[i / 8.0, (n - i) / 8.0] for i in range(n)]
+        for pick in ([n - 1, n - 2, n - 7], [0, n // 2, n - 1], [n - 1]):
+            yield {"ref": ref, "comp": [list(ref[i]) for i in pick], "mode": "subset", "d": None, "kind": "dyadic"}
+            yield {"ref": ref, "comp": [[ref[i][0] + 0.25, ref[i][1] + 0.25] for i in pick], "mode": "shifted", "d": 0.25,
+                   "kind": "dyadic"}
+
+
 CLAUSES = [
     Clause("queries", record(), check_queries, quick=2000, thorough=12000, quick_shards=4),
     Clause("gd", point_sets(), check_gd, quick=2000, thorough=20000, quick_shards=2),
     Clause("epsilon_add", point_sets(), check_eps, quick=2000, thorough=20000, quick_shards=2),
+]
+ENUMS = [
+    Enum("gd-dense-front", big_front_items, check_gd, tiers=("quick", "thorough"), chunk=3,
+         exhaustive_note="reference fronts of 1025..2500 (thorough ..6000) points on a line, computed sets taken from the "
+                         "head, middle and tail of the front and shifted copies"),
+    Enum("eps-dense-front", big_front_items, check_eps, tiers=("thorough",), chunk=3,
+         exhaustive_note="the same sets for the additive epsilon indicator"),
 ]
